@@ -701,6 +701,22 @@ RULES = {
         ("other * digit", "Mul :: mul ( other , digit )"),
         ("* self *= digit", "MulAssign :: mul_assign ( self , digit )"),
     ]),
+    "R12b2": Rule("R12b2", "V.iter().position(|&digit| !digit != 0) -> __pos_not_ones(&V)  (std: index of the first digit that is not all ones, None if none)",
+                 "$$v . iter ( ) . position ( | & digit | ! digit != 0 )",
+                 "__pos_not_ones ( & $$v )", guard=lambda e: e["$$v"] and all(t not in (";", "=", "{", "}", ",") for t in e["$$v"])),
+    "R41": Rule("R41", "V.iter().map(|&d| u64::from(d.count_ones())).sum() -> index loop adding u64::from(d.count_ones()) for each element in order (std: Sum for u64 over a Map adapter; `+` with the overflow check of the build profile)",
+                "$$v . iter ( ) . map ( | & d | u64 :: from ( d . count_ones ( ) ) ) . sum ( )",
+                "{ let mut s__ : u64 = 0 ; let mut i__ = 0 ; while i__ < $$v . len ( ) { let d = $$v [ i__ ] ; i__ += 1 ; s__ = s__ + u64 :: from ( d . count_ones ( ) ) ; } s__ }",
+                guard=lambda e: e["$$v"] and all(t not in (";", "=", "{", "}", ",") for t in e["$$v"])),
+    "R42": Rule("R42", "static BASES: T = E; (function-local static initialised by a const fn call) -> let BASES: T = E;  (const evaluation is deterministic: the static holds the value the call returns; only the time of evaluation differs)",
+                "static BASES : $$t = $$e ;", "let BASES : $$t = $$e ;"),
+    "R16w2": Rule("R16w2", "while digits > big_base { -> while (digits.cmp(&big_base) == Greater) {  (std default `PartialOrd::gt` over `partial_cmp = Some(cmp)`)",
+                  "while digits > big_base {", "while ( digits . cmp ( & big_base ) == core :: cmp :: Ordering :: Greater ) {"),
+    "R12m2": Rule("R12m2", "let radix_digits = { FLOAT }; let mut res = Vec::with_capacity(radix_digits.to_usize().unwrap_or(0)); -> let mut res = Vec::with_capacity(__cap_hint());  (ABSTRACTION: the floating-point size estimate only sets the initial capacity, which has no effect on the result; allocation is assumed not to fail)",
+                  "let radix_digits = { $$x } ; let mut res = Vec :: with_capacity ( radix_digits . to_usize ( ) . unwrap_or ( 0 ) ) ;",
+                  "let mut res = Vec :: with_capacity ( __cap_hint ( ) ) ;"),
+    "R3us": Rule("R3us", "digits.data.len().sqrt() (num_integer::Roots on usize: external crate) -> __usize_sqrt(digits.data.len())", "digits . data . len ( ) . sqrt ( )", "__usize_sqrt ( digits . data . len ( ) )"),
+    "R3bb2": Rule("R3bb2", "big_base = &big_base * &big_base; -> big_base = Mul::mul(&big_base, &big_base);", "big_base = & big_base * & big_base ;", "big_base = Mul :: mul ( & big_base , & big_base ) ;"),
     "R16v": Rule("R16v", "Ord::cmp(&bit, &trailing_zeros) -> __u64_cmp(bit, trailing_zeros)  (std: total order on u64)",
                  "Ord :: cmp ( & bit , & trailing_zeros )", "__u64_cmp ( bit , trailing_zeros )"),
     "R0p": Rule("R0p", "crate::big_digit::BITS -> big_digit::BITS  (path of the same constant inside the unit's module)",
